@@ -9,9 +9,9 @@ src=/tmp/seed_$id
 wt=/tmp/st_$id; out=/tmp/stout_$id
 git -C /repo worktree remove --force $wt >/dev/null 2>&1; rm -rf $wt $out; mkdir -p $out
 git -C /repo worktree add --detach $wt HEAD -q >/dev/null 2>&1 || { echo "$id: cannot create worktree"; exit 2; }
-p=$src/patch.current.diff; [ -f "$p" ] || p=$src/patch.diff
+p=$src/patch.current.diff; [ -s "$p" ] || p=$src/patch.diff
 git -C $wt apply --3way "$p" >/dev/null 2>&1 || git -C $wt apply "$p" >/dev/null 2>&1 || { echo "$id: patch does not apply"; git -C /repo worktree remove --force $wt; exit 2; }
-git -C $wt diff > $src/patch.current.diff
+git -C $wt diff HEAD > $src/patch.current.diff
 # (a) suite unchanged, (b) demo fails with / passes without
 suite=$(cd $wt && PYTHONPATH=$wt /venv/bin/python -m pytest -q -p no:cacheprovider --timeout=900 pyqsp/test 2>&1 | tail -1 | sed 's/ in .*//')
 (cd $wt && PYTHONPATH=$wt timeout 900 /venv/bin/python $src/demo.py > $out/demo_with.txt 2>&1); dw=$?
